@@ -1352,6 +1352,262 @@ def correspondence_lhs_int(ctx):
     return bad
 
 
+# ------------------------------------------------------------------------------ design matrix USED by a fitter with a history
+SETUP_CACHE_STMT = ('if self._spline_basis is None or not self._spline_basis.same_basis(num_knots, spline_degree):\n'
+                    '    self._spline_basis = {ctor}')
+
+
+def pin_same_basis(ctx):
+    """Fail-closed pins of the cache key of the fitters' design matrix: SplineBasis.same_basis / SplineBasis2D.same_basis compare
+    the REQUESTED (num_knots, spline_degree) with the settings the stored basis was built from (stored by __init__ from its own
+    arguments), and _setup_spline (1-D, 2-D) rebuilds the basis exactly when same_basis says no and hands THAT object to PSpline."""
+    import ast
+    import os
+    from .common import REPO
+    ob = 'pin:same_basis(1-D,2-D)+_setup_spline-cache-statement(requested-settings-are-the-cache-key)'
+    ctx.obligations.append(ob)
+    try:
+        t1 = ast.parse(open(os.path.join(REPO, 'pybaselines', '_spline_utils.py')).read())
+        t2 = ast.parse(open(os.path.join(REPO, 'pybaselines', 'two_d', '_spline_utils.py')).read())
+
+        def body(fn):
+            b = fn.body
+            if b and isinstance(b[0], ast.Expr) and isinstance(getattr(b[0], 'value', None), ast.Constant):
+                b = b[1:]
+            return [ast.unparse(st) for st in b]
+
+        got = body(_fn(t1, 'SplineBasis', 'same_basis'))
+        if got != ['return num_knots == self.num_knots and spline_degree == self.spline_degree']:
+            raise ValueError(f'SplineBasis.same_basis body is {got}')
+        got = body(_fn(t2, 'SplineBasis2D', 'same_basis'))
+        want = ["num_knots = _check_scalar_variable(num_knots, allow_zero=False, variable_name='number of knots', two_d=True, dtype=int)",
+                "spline_degree = _check_scalar_variable(spline_degree, allow_zero=True, variable_name='spline degree', two_d=True, dtype=int)",
+                'return np.array_equal(num_knots, self.num_knots) and np.array_equal(spline_degree, self.spline_degree)']
+        if got != want:
+            raise ValueError(f'SplineBasis2D.same_basis body is {got}')
+        init1 = body(_fn(t1, 'SplineBasis', '__init__'))
+        for need in ('self.knots = _spline_knots(self.x, num_knots, spline_degree, True)',
+                     'self.spline_degree = np.asarray(spline_degree).item()', 'self.num_knots = np.asarray(num_knots).item()',
+                     'self.basis = _spline_basis(self.x, self.knots, spline_degree)'):
+            if init1.count(need) != 1:
+                raise ValueError(f'SplineBasis.__init__ lacks `{need}`')
+        for f, cls, ctor, ps in (('_algorithm_setup.py', '_Algorithm', 'SplineBasis(self.x, num_knots, spline_degree)',
+                                  'pspline = PSpline(self._spline_basis, lam, diff_order, allow_lower, reverse_diags)'),
+                                 (os.path.join('two_d', '_algorithm_setup.py'), '_Algorithm2D',
+                                  'SplineBasis2D(self.x, self.z, num_knots, spline_degree)',
+                                  'pspline = PSpline2D(self._spline_basis, lam, diff_order)')):
+            tree = ast.parse(open(os.path.join(REPO, 'pybaselines', f)).read())
+            fn = _fn(tree, cls, '_setup_spline')
+            text = [ast.unparse(st) for st in fn.body]
+            if text.count(SETUP_CACHE_STMT.format(ctor=ctor)) != 1 or text.count(ps) != 1:
+                raise ValueError(f'{cls}._setup_spline lacks the pinned cache statement / PSpline construction')
+            assigns = [ast.unparse(n) for n in ast.walk(fn) if isinstance(n, (ast.Assign, ast.AugAssign))
+                       and any('_spline_basis' in ast.unparse(t) for t in (n.targets if isinstance(n, ast.Assign) else [n.target]))]
+            if len(assigns) != 1:
+                raise ValueError(f'{cls}._setup_spline assigns _spline_basis {len(assigns)} times')
+        ctx.discharged.append(ob)
+    except Exception as exc:  # noqa
+        ctx.broke(ob, f'the design-matrix cache key no longer has the pinned shape: {exc}')
+
+
+# FIXED grid of consecutive (num_knots, spline_degree) requests on ONE fitter
+HISTORY_PAIRS = [
+    # equal num_knots + 2*degree (= len(knots))
+    ((10, 3), (12, 2)), ((6, 0), (4, 1)), ((8, 1), (4, 3)), ((12, 2), (10, 3)), ((5, 2), (9, 0)),
+    # equal num_knots + degree - 1 (= number of basis functions)
+    ((10, 3), (11, 2)), ((5, 1), (4, 2)), ((7, 0), (4, 3)), ((6, 2), (8, 0)),
+    # one of the two equal, swapped, identical (legitimate reuse)
+    ((8, 3), (8, 1)), ((8, 3), (9, 3)), ((3, 5), (5, 3)), ((8, 3), (8, 3)), ((20, 3), (3, 1)),
+]
+HISTORY_TRIPLES = [((10, 3), (12, 2), (10, 3)), ((6, 0), (4, 1), (5, 1)), ((8, 3), (8, 3), (4, 5))]
+HISTORY_METHODS = ['pspline_asls', 'pspline_arpls', 'mixture_model', 'irsqr', 'pspline_airpls']
+
+
+def used_basis_1d(x, y, seq, methods, rejected=False):
+    """Runs the requests of `seq` one after the other on ONE Baseline and returns, for the LAST one, the SplineBasis that
+    PSpline.solve_pspline actually worked with (solve_pspline is wrapped), the sorted x of the fitter and the public result."""
+    S = su()
+    from pybaselines import Baseline
+    fitter = Baseline(x_data=x)
+    seen = []
+    orig = S.PSpline.solve_pspline
+
+    def spy(self, *a, **kw):
+        seen.append(self.basis)
+        return orig(self, *a, **kw)
+
+    out = None
+    with warnings.catch_warnings():
+        warnings.simplefilter('ignore')
+        for step, (nk, k) in enumerate(seq):
+            if rejected and step == len(seq) - 1:
+                for bad_kw in ({'num_knots': 1, 'spline_degree': k}, {'num_knots': nk, 'spline_degree': -1},
+                               {'num_knots': nk, 'spline_degree': k, 'diff_order': nk + k + 5}):
+                    try:
+                        getattr(fitter, methods[0])(y, lam=10.0, **dict({'diff_order': 1}, **bad_kw))
+                    except Exception:  # noqa
+                        pass
+            del seen[:]
+            S.PSpline.solve_pspline = spy
+            try:
+                kw = {'lam': 10.0, 'num_knots': nk, 'spline_degree': k, 'diff_order': 1, 'max_iter': 2}
+                out = getattr(fitter, methods[step % len(methods)])(y, **kw)
+            finally:
+                S.PSpline.solve_pspline = orig
+    return (seen[0] if seen else None), np.sort(x), out
+
+
+def check_used_basis(basis, xs, nk, k, label):
+    """The basis a solve worked with must be THE B-spline basis of (xs, num_knots=nk, degree=k)."""
+    S = su()
+    if basis is None:
+        return 'history:no-solve', f'{label}: no solve_pspline call was observed'
+    knots = S._spline_knots(xs, nk, k, True)
+    if len(basis.knots) != len(knots) or not np.array_equal(basis.knots, knots) or basis.spline_degree != k:
+        return 'history:stale-basis:knots', (f'{label}: the solve used knots/degree of another request (degree {basis.spline_degree}, '
+                                             f'{len(basis.knots)} knots) instead of degree {k}, {len(knots)} knots')
+    B = basis.basis
+    if B.shape != (len(xs), nk + k - 1):
+        return 'history:stale-basis:shape', f'{label}: the design matrix used has shape {B.shape} instead of {(len(xs), nk + k - 1)}'
+    ref = dense_ref(xs, knots, k)
+    if np.abs(B.toarray() - ref).max() > 1e-11:
+        return 'history:stale-basis:values', f'{label}: the design matrix used differs from the B-spline basis of the requested settings'
+    return None
+
+
+def history_cells(ctx):
+    cells = []
+    for i, (a, b) in enumerate(HISTORY_PAIRS):
+        cells.append(((a, b), i % 2 == 1, i % 3 == 2))
+    for i, t in enumerate(HISTORY_TRIPLES):
+        cells.append((t, i % 2 == 0, False))
+    if ctx.tier == 'thorough':
+        for a, b in HISTORY_PAIRS:
+            cells.append(((b, a), True, True))
+    return cells
+
+
+def oracle_history(ctx):
+    """Enumerated history family, 1-D: bit-exact rows of the basis used by the last request against the float model evaluated for
+    the REQUESTED settings (Coq), plus the direct oracle (knots, shape, SciPy reference, tck, fresh-fitter result)."""
+    S = su()
+    from pybaselines import Baseline
+    n = 41
+    x0 = np.linspace(-3.0, 17.0, n)
+    y0 = np.sin(x0 / 2.0) + 0.05 * x0 + 2.0 * np.exp(-0.5 * ((x0 - 6.0) / 0.7) ** 2)
+    lits, metas = [], []
+    for ci, (seq, unsorted, rejected) in enumerate(history_cells(ctx)):
+        if unsorted:
+            perm = np.random.default_rng(77).permutation(n)
+            x, y = x0[perm], y0[perm]
+        else:
+            x, y = x0, y0
+        methods = HISTORY_METHODS[ci % len(HISTORY_METHODS):] + HISTORY_METHODS[:ci % len(HISTORY_METHODS)]
+        nk, k = seq[-1]
+        case = {'kind': 'history1d', 'x': x.tolist(), 'y': y.tolist(), 'requests': [list(r) for r in seq], 'methods': methods,
+                'rejected': rejected}
+        label = ' -> '.join(f'(num_knots={a}, degree={b})' for a, b in seq)
+        ctx.case(('history1d', seq, unsorted, rejected), nontrivial=len(set(seq)) > 1, kind='history1d:' + (
+            'same-len-knots' if len(set(a + 2 * b for a, b in seq[-2:])) == 1 and len(set(seq[-2:])) > 1 else
+            'same-num-bases' if len(set(a + b for a, b in seq[-2:])) == 1 and len(set(seq[-2:])) > 1 else 'other'))
+        try:
+            basis, xs, out = used_basis_1d(x, y, seq, methods, rejected)
+            err = check_used_basis(basis, xs, nk, k, label)
+            if not err:
+                tck = out[1].get('tck')
+                if tck is not None and (tck[2] != k or len(tck[0]) != nk + 2 * k or len(tck[1]) != nk + k - 1):
+                    err = ('history:tck', f'{label}: the returned tck does not have the requested knot count / degree')
+            if not err:
+                fresh = getattr(Baseline(x_data=x), methods[(len(seq) - 1) % len(methods)])(
+                    y, lam=10.0, num_knots=nk, spline_degree=k, diff_order=1, max_iter=2)[0]
+                if not np.array_equal(out[0], fresh):
+                    err = ('history:differs-from-fresh', f'{label}: the baseline of the last request differs from a fresh fitter\'s')
+        except Exception as exc:  # noqa
+            basis = None
+            err = (f'history:exception:{type(exc).__name__}', f'{label}: raised {type(exc).__name__}: {exc}')
+        if err:
+            ctx.fail(err[0], err[1] + f' [one Baseline, x {"unsorted" if unsorted else "sorted"} linspace(-3,17,41), methods '
+                     f'{methods[:len(seq)]}, rejected calls before the last request: {rejected}]', case)
+        if basis is not None:
+            knots = S._spline_knots(xs, nk, k, True)
+            B = basis.basis.tocsr()
+            rows = np.repeat(np.arange(B.shape[0]), np.diff(B.indptr))
+            lits.append(f'({k}, {fl(xs)}, {fl(knots)}, {fl(B.data)}, {nl(rows)}, {nl(B.indices)})')
+            metas.append(case)
+    return run_cases(ctx, 'history', 'nat * list float * list float * list float * list nat * list nat', lits, OK_ROWS, 60,
+                     'correspondence:design-matrix-USED-after-a-call-history-bit-exact-vs-model-for-REQUESTED-settings(1-D)',
+                     'design matrix used by the last request of a call history', lambda i: metas[i])
+
+
+HISTORY_2D = [
+    (((6, 6), (0, 0)), ((4, 4), (1, 1))), (((10, 5), (3, 2)), ((12, 5), (2, 2))), (((5, 8), (2, 1)), ((5, 4), (2, 3))),
+    (((6, 4), (1, 2)), ((4, 6), (2, 1))), (((5, 5), (3, 3)), ((6, 6), (2, 2))), (((7, 4), (0, 3)), ((4, 7), (3, 0))),
+    (((5, 6), (2, 2)), ((5, 6), (2, 2))),
+]
+
+
+def oracle_history_2d(ctx):
+    """The same on ONE Baseline2D with M != N: the bases PSpline2D.solve works with after a second request must be the bases of
+    the requested per-axis settings; rows bit-exact against the 1-D float model on each axis."""
+    S = su()
+    from pybaselines import Baseline2D
+    from pybaselines.two_d import _spline_utils as S2
+    x = np.linspace(0.0, 9.0, 13)
+    z = np.linspace(-2.0, 5.0, 10)
+    X, Z = np.meshgrid(x, z, indexing='ij')
+    y = np.sin(X / 2) + 0.1 * Z + np.exp(-((X - 4) ** 2 + (Z - 1) ** 2))
+    lits, metas = [], []
+    for ci, (first, second) in enumerate(HISTORY_2D):
+        scalar = first[0][0] == first[0][1] and first[1][0] == first[1][1] and second[0][0] == second[0][1] and second[1][0] == second[1][1]
+        case = {'kind': 'history2d', 'requests': [[list(first[0]), list(first[1])], [list(second[0]), list(second[1])]]}
+        label = f'(num_knots={first[0]}, degree={first[1]}) -> (num_knots={second[0]}, degree={second[1]})'
+        ctx.case(('history2d', first, second), nontrivial=first != second, kind='history2d')
+        seen = []
+        orig = S2.PSpline2D.solve
+
+        def spy(self, *a, **kw):
+            seen.append(self.basis)
+            return orig(self, *a, **kw)
+
+        err = None
+        try:
+            fitter = Baseline2D(x, z)
+            with warnings.catch_warnings():
+                warnings.simplefilter('ignore')
+                for step, (nks, ks) in enumerate((first, second)):
+                    del seen[:]
+                    S2.PSpline2D.solve = spy
+                    try:
+                        kw = {'num_knots': nks[0] if scalar else nks, 'spline_degree': ks[0] if scalar else ks}
+                        getattr(fitter, ('pspline_asls', 'pspline_arpls')[(ci + step) % 2])(y, lam=10.0, diff_order=1, max_iter=1, **kw)
+                    finally:
+                        S2.PSpline2D.solve = orig
+            sb = seen[0] if seen else None
+            if sb is None:
+                err = ('history2d:no-solve', f'{label}: no PSpline2D.solve call was observed')
+            else:
+                nks, ks = second
+                for side, ax, nk, k, knots_used, B in (('r', x, nks[0], ks[0], sb.knots_r, sb.basis_r),
+                                                       ('c', z, nks[1], ks[1], sb.knots_c, sb.basis_c)):
+                    knots = S._spline_knots(ax, nk, k, True)
+                    if len(knots_used) != len(knots) or not np.array_equal(knots_used, knots) or B.shape != (len(ax), nk + k - 1) \
+                            or np.abs(B.toarray() - dense_ref(ax, knots, k)).max() > 1e-11:
+                        err = (f'history2d:stale-basis_{side}', f'{label}: the solve used a basis_{side} of shape {B.shape} with '
+                               f'{len(knots_used)} knots instead of the requested num_knots {nk}, degree {k} ({(len(ax), nk + k - 1)}, '
+                               f'{len(knots)} knots)')
+                    Bc = B.tocsr()
+                    rows = np.repeat(np.arange(Bc.shape[0]), np.diff(Bc.indptr))
+                    lits.append(f'({k}, {fl(ax)}, {fl(knots)}, {fl(Bc.data)}, {nl(rows)}, {nl(Bc.indices)})')
+                    metas.append(case)
+        except Exception as exc:  # noqa
+            err = (f'history2d:exception:{type(exc).__name__}', f'{label}: raised {type(exc).__name__}: {exc}')
+        if err:
+            ctx.fail(err[0], err[1] + ' [one Baseline2D, x = linspace(0,9,13), z = linspace(-2,5,10)]', case)
+    return run_cases(ctx, 'history2d', 'nat * list float * list float * list float * list nat * list nat', lits, OK_ROWS, 60,
+                     'correspondence:bases-USED-by-PSpline2D.solve-after-a-call-history-bit-exact-vs-model-for-REQUESTED-settings(2-D)',
+                     'bases used by the last request of a 2-D call history', lambda i: metas[i])
+
+
 def run(ctx):
     ctx.rule = ('penalized knot vectors from _spline_knots with num_knots 2..200, degree 0..6; x ranges ordinary, SCALED by 1e-15/1e-12/1e-9/1e-6/1e6/1e12/1e-300 '
                 '(and 1e-310, denormal, in the bit-exact cases) and OFFSET by +-1e6/+-1e12; x kinds '
@@ -1373,16 +1629,19 @@ def run(ctx):
     pin_init_2d(ctx)
     pin_btwb_2d(ctx)
     pin_solve_pspline(ctx)
+    pin_same_basis(ctx)
     bad = correspondence(ctx)
     bad |= correspondence_2d(ctx)
     bad |= correspondence_btwb_2d(ctx)
     bad |= correspondence_lhs_int(ctx)
+    bad |= oracle_history(ctx)
+    bad |= oracle_history_2d(ctx)
     budget = 1 if (ok and not bad and not ctx.broken and ctx.tier == 'quick') else 5
     oracle_lhs_grid(ctx)
     oracle(ctx, budget)
     oracle_2d(ctx, budget)
     oracle_btwb_2d(ctx, budget)
-    ctx.note(f'oracle budget x{budget}; 1-D system: the lhs/rhs handed to the solver inside PSpline.solve_pspline are captured (numba + sparse path, lower + full layout, own and zero penalty, strided views, objects with rejected calls in their history) on a FIXED grid of weight magnitudes 1e-300..1e290 and on random magnitudes 1e-250..1e250, compared relative to the largest entry; exact-integer cases against the Z instance of the model; 2-D: SplineBasis2D construction (each side vs its own axis, _G_r/_G_c, full basis) is oracle + bit-exact rows + pin; _make_btwb is modelled and proved (C12_btwb_2d, C12_btwb_2d_separable), pinned, tied by exact integers and searched with 14 weight families incl. constant non-unit / near-constant; the 2-D penalty and solver belong to C20; NOT covered: _spline_knots(penalized=False) '
+    ctx.note(f'oracle budget x{budget}; histories: the design matrix USED by the last of 2-3 consecutive spline requests on one Baseline / Baseline2D (fixed grid of colliding settings, rejected calls in between) is tied bit-exactly to the model for the requested settings; 1-D system: the lhs/rhs handed to the solver inside PSpline.solve_pspline are captured (numba + sparse path, lower + full layout, own and zero penalty, strided views, objects with rejected calls in their history) on a FIXED grid of weight magnitudes 1e-300..1e290 and on random magnitudes 1e-250..1e250, compared relative to the largest entry; exact-integer cases against the Z instance of the model; 2-D: SplineBasis2D construction (each side vs its own axis, _G_r/_G_c, full basis) is oracle + bit-exact rows + pin; _make_btwb is modelled and proved (C12_btwb_2d, C12_btwb_2d_separable), pinned, tied by exact integers and searched with 14 weight families incl. constant non-unit / near-constant; the 2-D penalty and solver belong to C20; NOT covered: _spline_knots(penalized=False) '
              'percentile knots only through hand-made clamped knot vectors, _basis_midpoints; values are compared with SciPy up to 1e-11, '
              'not bit-for-bit; theorems are exact-arithmetic (float rounding outside)')
 
@@ -1404,6 +1663,41 @@ def replay(rep):
             err = f'solve_pspline raised {type(exc).__name__}: {exc}'
         print('replay btb:', err or 'property holds on this input')
         return 1 if err else 0
+    if kind == 'history1d':
+        x, y = np.array(case['x']), np.array(case['y'])
+        seq = [tuple(r) for r in case['requests']]
+        basis, xs, out = used_basis_1d(x, y, seq, case['methods'], case.get('rejected', False))
+        err = check_used_basis(basis, xs, seq[-1][0], seq[-1][1], str(seq))
+        print('replay history1d:', err or 'property holds on this input')
+        return 1 if err else 0
+    if kind == 'history2d':
+        from pybaselines import Baseline2D
+        from pybaselines.two_d import _spline_utils as S2
+        S = su()
+        x, z = np.linspace(0.0, 9.0, 13), np.linspace(-2.0, 5.0, 10)
+        X, Z = np.meshgrid(x, z, indexing='ij')
+        y = np.sin(X / 2) + 0.1 * Z + np.exp(-((X - 4) ** 2 + (Z - 1) ** 2))
+        fitter = Baseline2D(x, z)
+        seen = []
+        orig = S2.PSpline2D.solve
+        S2.PSpline2D.solve = lambda self, *a, **kw: (seen.append(self.basis), orig(self, *a, **kw))[1]
+        try:
+            with warnings.catch_warnings():
+                warnings.simplefilter('ignore')
+                for nks, ks in case['requests']:
+                    del seen[:]
+                    fitter.pspline_asls(y, lam=10.0, diff_order=1, max_iter=1, num_knots=tuple(nks), spline_degree=tuple(ks))
+        finally:
+            S2.PSpline2D.solve = orig
+        nks, ks = case['requests'][-1]
+        sb = seen[0]
+        bad = None
+        for side, ax, nk, k, B in (('r', x, nks[0], ks[0], sb.basis_r), ('c', z, nks[1], ks[1], sb.basis_c)):
+            knots = S._spline_knots(ax, nk, k, True)
+            if B.shape != (len(ax), nk + k - 1) or np.abs(B.toarray() - dense_ref(ax, knots, k)).max() > 1e-11:
+                bad = f'basis_{side} used by the solve has shape {B.shape}, not the basis of the requested num_knots {nk}, degree {k}'
+        print('replay history2d:', bad or 'property holds on this input')
+        return 1 if bad else 0
     if kind == 'lhs-int':
         from scipy import sparse
         S = su()
